@@ -382,3 +382,40 @@ Fixpoint trun (ideal : bool) (s : stt) (l : list top) : list ob :=
   | o :: l' => let '(s', r) := tstep ideal s o in r :: trun ideal s' l'
   end.
 End Struct.
+
+(* ================= values nested in a pointer-bridged struct as call arguments ================= *)
+(* h := &struct{ C Inner; G [3]int; P *Inner; S []Inner; Mp map[string]Inner }, Inner = struct{N, M int}.
+   Cells: 0 C.N  1 C.M  2-4 G[0..2]  5 P.N  6 P.M  7 S[0].N  8 S[0].M  9 Mp.a.N  10 Mp.a.M.
+   bump(x, by) adds by to N and sets M to 1 through what it was given and returns the new N;
+   fill(g, v) stores v, v+1, v+2.  mode 0: pointer parameter, 1: value parameter, 2: interface{}.
+   A struct / array held by value in the pointer-bridged struct is addressable: a pointer
+   parameter must receive its address (convertCallParameter: vv.Addr()), so the callee's
+   writes are seen by Go and by the script; a value parameter gets a copy; interface{} holds
+   the pointer for h.P and a copy for h.C.  Elements of slices and maps are handed over as copies. *)
+Inductive pop :=
+| PRead (js : bool) (cell : Z)
+| PWrite (js : bool) (cell : Z) (v : Z)
+| PBump (target mode d : Z)      (* target 0 h.C, 1 h.P, 2 h.S[0], 3 h.Mp.a *)
+| PFill (mode v : Z).
+
+Definition bump_base (t : Z) : Z := if t =? 0 then 0 else if t =? 1 then 5 else if t =? 2 then 7 else 9.
+Definition bump_aliases (t mode : Z) : bool :=
+  ((t =? 0) && (mode =? 0)) || ((t =? 1) && ((mode =? 0) || (mode =? 2))).
+
+Definition pstep (st : list Z) (o : pop) : list Z * ob :=
+  match o with
+  | PRead _ c => (st, o_num (nth (Z.to_nat c) st 0))
+  | PWrite _ c v => (upd st (Z.to_nat c) v, o_ok)
+  | PBump t mode d =>
+      let b := bump_base t in
+      let n := nth (Z.to_nat b) st 0 + d in
+      ((if bump_aliases t mode then upd (upd st (Z.to_nat b) n) (Z.to_nat (b + 1)) 1 else st), o_num n)
+  | PFill mode v =>
+      ((if mode =? 0 then upd (upd (upd st 2 v) 3 (v + 1)) 4 (v + 2) else st), o_ok)
+  end.
+
+Fixpoint prun (st : list Z) (l : list pop) : list ob :=
+  match l with
+  | [] => []
+  | o :: l' => let '(st', r) := pstep st o in r :: prun st' l'
+  end.
